@@ -938,6 +938,13 @@ pub fn record(inp: &FInput, mask: &Option<Vec<bool>>, full_line: bool) -> (Optio
                             detail: json!({"cell": i, "selected": active[i], "present": cell.is_some(), "idx": cell.map(|c| c.idx)}) });
                         break;
                     }
+                    if convf.cells()[i].safety_radius().to_bits() != direct.cells()[i].safety_radius().to_bits() {
+                        fails.push(TessFail { prop: "C16", what: "safety radius of the tessellation converted from the integrator with faces differs from the direct build".into(),
+                            detail: json!({"cell": i, "direct": direct.cells()[i].safety_radius(), "with_faces": convf.cells()[i].safety_radius()}) });
+                        fails.push(TessFail { prop: "C13", what: "safety radius of the tessellation converted from the integrator with faces differs from the direct build".into(),
+                            detail: json!({"cell": i, "direct": direct.cells()[i].safety_radius(), "with_faces": convf.cells()[i].safety_radius()}) });
+                        break;
+                    }
                     let (v0, v1) = (direct.cells()[i].volume(), convf.cells()[i].volume());
                     if (v0 - v1).abs() > tol_vol || (v1 != 0.0) != active[i] && inp.min_sep_rel() > 1e-4 {
                         fails.push(TessFail { prop: "C07", what: "tessellation converted from the integrator with faces differs from the direct (masked) build".into(),
